@@ -11,6 +11,15 @@ def Sorted (l : List Claim) : Prop := l.Pairwise (fun a b => a.date ≤ b.date)
 /-- pairwise distinct dates -/
 def DistinctDates (l : List Claim) : Prop := l.Pairwise (fun a b => a.date ≠ b.date)
 
+/-- the order the code keeps claims in (camtypes.claimBefore, 83d40e9): by date, equal dates by blobref -/
+def KeyLe (a b : Claim) : Prop := a.date < b.date ∨ (a.date = b.date ∧ a.rk ≤ b.rk)
+
+/-- in the code's claim order; in particular in claim-date order -/
+def SortedK (l : List Claim) : Prop := l.Pairwise KeyLe
+
+/-- no two claims with the same date AND the same blobref (blobrefs of distinct claims are distinct) -/
+def DistinctKeys (l : List Claim) : Prop := l.Pairwise (fun a b => a.date ≠ b.date ∨ a.rk ≠ b.rk)
+
 /-- the claim rows of permanode `p`, in arrival order -/
 def World.claimsOf (w : World) (p : Nat) : List Claim := w.claims.filter (fun c => decide (c.pn = p))
 
@@ -25,12 +34,16 @@ def counts (deleted : Nat → Bool) (attr : Bytes) (t : Nat) (f : Option Nat) (c
 /-- `l` is the claim set `cs` arranged in claim-date order (equal dates in any order) -/
 def IsLin (l cs : List Claim) : Prop := l.Perm cs ∧ Sorted l
 
+/-- `l` is the claim set `cs` in the arrangement the code uses: equal dates by blobref -/
+def IsLinK (l cs : List Claim) : Prop := l.Perm cs ∧ SortedK l
+
 /-- the attribute values the documented semantics allow: the fold of SOME date-ordered arrangement -/
 def AttrValues (cs : List Claim) (deleted : Nat → Bool) (attr : Bytes) (t : Nat) (f : Option Nat)
     (vs : List Bytes) : Prop :=
   ∃ l, IsLin l cs ∧ vs = foldVals (l.filter (counts deleted attr t f))
 
-/-- the attribute values, as a function (meaningful when dates are pairwise distinct) -/
+/-- the attribute values, as a function: the arrangement with equal dates ordered by blobref (THE
+value when dates are pairwise distinct; one of the allowed values otherwise) -/
 def attrValues (cs : List Claim) (deleted : Nat → Bool) (attr : Bytes) (t : Nat) (f : Option Nat) : List Bytes :=
   foldVals ((sortByDate cs).filter (counts deleted attr t f))
 
